@@ -668,7 +668,11 @@ class CondSelect(Statement):
             for branch in code_branches + code_default:
                 return_paths.extend(branch.return_paths())
 
-        super().__init__(returns, return_paths)
+        # without a default branch it is possible that no branch
+        # is taken, the statements after the selection are reachable
+        returns_always = returns and default is not None
+
+        super().__init__(returns_always, return_paths)
 
     def dump(self) -> IndentBlock:
         if self._default is not None:
